@@ -68,6 +68,8 @@ pub struct RefTerm {
     pub pen: PenObs,
     pub awm: bool,
     pub irm: bool,
+    /// new-line mode: a line feed also returns the carriage (the column after it is adopted)
+    pub lnm: bool,
     pub origin: bool,
     pub g: [bool; 2],
     pub active: usize,
@@ -154,6 +156,7 @@ impl RefTerm {
             pen: PenObs(0),
             awm: true,
             irm: false,
+            lnm: false,
             origin: false,
             g: [false, false],
             active: 0,
@@ -554,7 +557,14 @@ impl RefTerm {
                 self.pending = false;
                 ex.col = ColCmp::Exact;
             }
-            Lf => self.line_feed(ex),
+            Lf => {
+                self.line_feed(ex);
+                if self.lnm {
+                    // which of LF/VT/FF/IND also return the carriage is not fixed by the
+                    // properties; that the line feed itself happens is
+                    ex.col = ColCmp::Adopt;
+                }
+            }
             Nel => {
                 self.line_feed(ex);
                 self.col = 0;
@@ -831,7 +841,7 @@ impl RefTerm {
                 for m in v {
                     match m {
                         4 => self.irm = on,
-                        20 => return Err("LNM is not specified by the properties".into()),
+                        20 => self.lnm = on,
                         _ => {}
                     }
                 }
@@ -1148,6 +1158,7 @@ impl RefTerm {
         self.ckm = real.ckm;
         self.pen = PenObs::of(&h.pen);
         self.irm = h.insert_mode;
+        self.lnm = h.new_line_mode;
         self.origin = h.origin_mode;
         self.awm = h.auto_wrap_mode;
         self.g = h.charsets_drawing;
@@ -1180,6 +1191,9 @@ impl RefTerm {
         let pen = PenObs::of(&h.pen);
         if pen != self.pen {
             return Err(format!("pen {:?}, expected {:?}", pen, self.pen));
+        }
+        if h.new_line_mode != self.lnm {
+            return Err(format!("new-line mode {}, expected {}", h.new_line_mode, self.lnm));
         }
         if h.insert_mode != self.irm {
             return Err(format!("insert mode {}, expected {}", h.insert_mode, self.irm));
